@@ -57,6 +57,21 @@ impl<K, V> OrderedQueue<K, V> {
             return Err(Error::Stale { key, value });
         }
 
+        // A write for a sequence that is already buffered needs no room: merge the duplicate or
+        // reject the conflict before considering eviction, so the buffer is left untouched
+        if let Some(existing) = self.map.get_mut(&key) {
+            if value.key_eq(existing) {
+                existing.merge(value);
+                return Ok(InsertResult {
+                    next: None,
+                    merged_with_existing: true,
+                    evicted: None,
+                });
+            } else {
+                return Err(Error::Conflict { value });
+            }
+        }
+
         // Evict a record if we're full
         let mut evicted = None;
         if self.map.len() >= self.limit {
